@@ -113,10 +113,51 @@ def doSimplex (l : Line) : Option String := do
       let p := x.map fun xi => maxK (xi - tau) 0
       some s!"ok tau={showRat tau} resid={showRat (sumK p - r)} p={showRatList p}"
 
+/-- Is `r ≥ 0` the square of a rational (the hypothesis "the point-wise norm exists in the
+field" of the group theorems)? -/
+def isRatSquare (r : Rat) : Bool := let q := ratSqrt r; q * q == r
+
+/-- `gobj kind=l1l2|huberg pw=<product weights> d=<components> par=<lam | gamma> g=<data|~>
+b=<base-space weights> s=<step> x=<point> z=<probe>`: the model proximal point `p` of `x`, the
+objective `groupObj` at `z` and at `p`, the gap `obj(z) − obj(p) − ‖z − p‖²/(2σ)` (non-negative
+by `C07.l1l2_groupObj_minimises` / `C07.huberG_groupObj_minimises`) and whether every point-wise
+norm involved was an exact rational square (`sq=1`: all values exact). -/
+def doGobj (l : Line) : Option String := do
+  let kind ← l.get? "kind"
+  let pw ← l.rats? "pw"
+  let d ← l.nat? "d"
+  let par ← l.rat? "par"
+  let g ← optList (← l.get? "g")
+  let b ← l.rats? "b"
+  let s ← l.rat? "s"
+  let x ← l.rats? "x"
+  let z ← l.rats? "z"
+  if d = 0 ∨ x.length % d ≠ 0 ∨ z.length ≠ x.length ∨ pw.length ≠ d ∨ b.length * d ≠ x.length
+      ∨ s ≤ 0 then none
+  else
+    let m := x.length / d
+    let E : Env Rat := { sqrt := ratSqrt, eps := 0 }
+    let (f, phi, g') ← (match kind with
+      | "l1l2" => some (Fn.l1l2 pw d par g, fun t => par * t, g)
+      | "huberg" => if g.isSome then none else some (Fn.huberG pw d par, huberValK par, none)
+      | _ => none : Option (Fn Rat × (Rat → Rat) × Option (List Rat)))
+    if !f.ok (.sc s) x.length then some "unsupported"
+    else
+      let p := f.prox E (x.map fun _ => 1) (.sc s) x
+      let fz := groupObj ratSqrt phi pw d m b g' s x z
+      let fp := groupObj ratSqrt phi pw d m b g' s x p
+      let q := groupObj ratSqrt (fun _ => 0) pw d m b none s p z
+      let sqs (v : List Rat) : Bool := (List.range m).all fun i =>
+        isRatSquare (sumK ((List.range d).map fun k =>
+          let e := v.getD (k * m + i) 0 - gAt g' (k * m + i); pw.getD k 1 * (e * e)))
+      let sq := sqs x && sqs z && sqs p
+      some s!"ok sq={if sq then 1 else 0} fz={showRat fz} fp={showRat fp} gap={showRat (fz - fp - q)} p={showRatList p}"
+
 def handle (l : Line) : Option String :=
   match l.op with
   | "prox" => doProx l
   | "simplex" => doSimplex l
+  | "gobj" => doGobj l
   | _ => none
 
 def main : IO Unit := driverLoop handle
